@@ -26,10 +26,16 @@ type readResult struct {
 	Re    []byte // re-encoding (nil for Undefined)
 	Err   error
 	Panic *guard.Panic
+	// PacketWithError: a non-nil packet value (possibly a typed nil pointer
+	// inside the interface) was returned together with an error.
+	PacketWithError bool
 }
 
 func resultOf(p mq.ControlPacket, err error, pan *guard.Panic) readResult {
 	r := readResult{Err: err, Panic: pan}
+	if pan == nil && err != nil && p != nil {
+		r.PacketWithError = true
+	}
 	if pan != nil || err != nil || p == nil {
 		return r
 	}
@@ -48,6 +54,9 @@ func resultOf(p mq.ControlPacket, err error, pan *guard.Panic) readResult {
 func sameResult(a, b readResult) string {
 	if a.Panic != nil || b.Panic != nil {
 		return fmt.Sprintf("panic: %v / %v", a.Panic, b.Panic)
+	}
+	if a.PacketWithError || b.PacketWithError {
+		return fmt.Sprintf("a packet value that is not nil was returned together with an error (%v / %v)", a.Err, b.Err)
 	}
 	if a.OK != b.OK {
 		return fmt.Sprintf("one read returned a packet, the other an error (%v / %v)", a.Err, b.Err)
